@@ -110,16 +110,17 @@ def listing(pattern, folders, opts):
     return r
 
 
-def extract_all(pattern, folders, opts, unroll=2):
-    r = ObResult(bounds="layout %s; extractall(factory); <= %d decoder calls per member; sizes/CRCs/pack sizes symbolic"
-                        % (RC.shape_name(pattern, folders, opts), unroll))
+def extract_all(pattern, folders, opts, unroll=2, by_path=False):
+    r = ObResult(bounds="layout %s opened %s; extractall(factory); <= %d decoder calls per member; sizes/CRCs/pack sizes symbolic"
+                        % (RC.shape_name(pattern, folders, opts), "by path (parallel branch run with a sequential thread "
+                           "stand-in: one schedule)" if by_path else "from a stream", unroll))
     eng = RC.mk_engine(unroll=unroll)
     sym = RC.symbols(eng, pattern)
 
     def harness(e):
         entries, layout = RC.build(e, pattern, folders, opts, sym)
         try:
-            z, fp, w = X.setup_read(e, entries, layout)
+            z, fp, w = X.setup_read(e, entries, layout, name=("arch.7z" if by_path else None))
         except ModelRaise as ex:
             return dict(exc="open:" + ex.name)
         fac = X.StubFactory(w)
@@ -275,4 +276,8 @@ def units(tier):
     for (p, f, o) in shapes:
         us.append(Unit("X.extractall[%s]" % RC.shape_name(p, f, o), M, "extract_all",
                        dict(pattern=p, folders=f, opts=o, unroll=2 if tier == "quick" else 3), 1800))
+    # the thread-parallel branch (multi-folder archive opened by path), workers run one after the other
+    for (p, f, o) in [s_ for s_ in shapes if len(s_[1]) > 1][: (3 if tier == "quick" else 99)] + [("ff", [1, 1], {"packpos": True})]:
+        us.append(Unit("P.extractall_by_path[%s]" % RC.shape_name(p, f, o), M, "extract_all",
+                       dict(pattern=p, folders=f, opts=o, unroll=1 if tier == "quick" else 2, by_path=True), 1800))
     return us
